@@ -46,7 +46,8 @@ TRUSTED = [
 ]
 RULE = ("type-directed JSON hint lists: valid direct/tor/relay hints over a small pool of hosts/ports/priorities "
         "(so duplicates and equal priorities occur), field-wise mutations (delete, replace by every JSON type, nest, "
-        "duplicate, retype), random JSON structures; each list goes through parse_hint, Transit.add_connection_hints+"
+        "duplicate, retype), numeric twins (a valid hint next to a copy that is == in Python but of another JSON type: float/bool "
+        "port, bool or int/float priority; top-level and inside relay-v1; both orders; one list or two calls), random JSON structures; each list goes through parse_hint, Transit.add_connection_hints+"
         "_connect (Clock, recorder endpoints, with/without Tor stub, listener, own relay) and a real Manager/Connector "
         "via received_dilation_message; thorough adds exhaustive single-field replacement over the atom table; "
         "non-trivial = at least one hint reached a type branch; distinct = distinct canonical output traces")
@@ -245,6 +246,48 @@ def gen_hint_list(rng, adversarial):
     return out
 
 
+def numeric_twins(h):
+    """copies of the valid tcp hint `h` that are `==` to it in Python but differ in JSON type: float port,
+    bool port (0/1), bool priority (0/1), int<->float priority.  The first kinds are invalid hints, the last is valid."""
+    out = []
+    out.append(dict(h, port=float(h["port"])))
+    if h["port"] in (0, 1):
+        out.append(dict(h, port=bool(h["port"])))
+    p = h.get("priority")
+    if p is not None:
+        if p in (0, 1):
+            out.append(dict(h, priority=bool(p)))
+        if isinstance(p, float) and p == int(p) and abs(p) < 2 ** 53:
+            out.append(dict(h, priority=int(p)))
+        elif isinstance(p, int):
+            out.append(dict(h, priority=float(p)))
+    return out
+
+
+def twin_adds(rng, valid=None, relay=None):
+    """a valid hint and a numeric twin of it, as top-level entries or inside relay-v1 entries, in either order,
+    within one list or split over two lists; surrounded by a little ordinary material"""
+    if valid is None:
+        valid = {"type": rng.choice(["direct-tcp-v1", "direct-tcp-v1", "tor-tcp-v1"]), "hostname": rng.choice(HOSTS[:8]),
+                 "port": rng.choice([4001, 1, 0, 80]), "priority": rng.choice([0.0, 1.0, 0, 1, 2.0, 3])}
+    twin = rng.choice(numeric_twins(valid))
+    if relay is None:
+        relay = rng.random() < 0.4
+    if relay:
+        extra = [gen_tcp(rng)] if rng.random() < 0.3 else []
+        a = {"type": "relay-v1", "hints": [twin]}
+        b = {"type": "relay-v1", "hints": [valid] + extra}
+        if extra and rng.random() < 0.5:
+            a = {"type": "relay-v1", "hints": [twin]}
+    else:
+        a, b = twin, valid
+    pair = [a, b] if rng.random() < 0.65 else [b, a]
+    pad = lambda: [gen_valid(rng) for _ in range(rng.choice([0, 0, 1]))]
+    if rng.random() < 0.5:
+        return [pad() + [pair[0]] + pad() + [pair[1]] + pad()]
+    return [pad() + [pair[0]], [pair[1]] + pad()]
+
+
 MGR_STATES = ["CONNECTING", "CONNECTING", "CONNECTING", "CONNECTING", "WANTING", "CONNECTED", "FLUSHING", "LONELY",
               "ABANDONING", "STOPPING"]
 
@@ -336,6 +379,18 @@ def cases(rng, tier):
                     out.append(dict(kind="dilation", tor=tor, nolisten=(j % 2 == 0), own=(j == 1), mgr="CONNECTING", con="connecting",
                                     msgs=[{"type": "connection-hints", "hints": hl}]))
             out.append(dict(kind="parse", values=[{"type": "direct-tcp-v1", "hostname": host, "port": 1}]))
+    base = {"type": "direct-tcp-v1", "priority": 0.0, "hostname": "192.0.2.7", "port": 4001}
+    base1 = {"type": "direct-tcp-v1", "priority": 1, "hostname": "a", "port": 1}
+    for v in (base, base1):
+        for tw in numeric_twins(v):
+            rv, rt = {"type": "relay-v1", "hints": [v]}, {"type": "relay-v1", "hints": [tw]}
+            for first, second in ((tw, v), (v, tw), (rt, rv), (rv, rt), (rt, v), (tw, rv)):
+                for adds in ([[first, second]], [[first], [second]]):
+                    for listener in (False, True):
+                        out.append(dict(kind="transit", tor=False, listener=listener, own=False, receiver=listener, adds=adds))
+                    out.append(dict(kind="dilation", tor=False, nolisten=False, own=False, mgr="CONNECTING", con="connecting",
+                                    msgs=[{"type": "connection-hints", "hints": a} for a in adds]))
+            out.append(dict(kind="parse", values=[tw, v, rt, rv]))
     # message shapes outside the quantifier (compared with the model, not judged unless STRICT_MESSAGE_SHAPE)
     for m in [{"type": "connection-hints"}, {"type": "connection-hints", "hints": 5},
               {"type": "connection-hints", "hints": None}, {"type": "connection-hints", "hints": "ab"},
@@ -374,6 +429,12 @@ def cases(rng, tier):
         r = rng.random()
         if r < 0.25:
             out.append(dict(kind="parse", values=gen_hint_list(rng, adv) + [random_j(rng)]))
+        elif r < 0.31:
+            out.append(dict(kind="transit", tor=e["tor"], listener=e["listener"], own=e["own"], receiver=e["receiver"],
+                            adds=twin_adds(rng)))
+        elif r < 0.36:
+            out.append(dict(kind="dilation", tor=e["tor"], nolisten=e["nolisten"], own=e["own"], mgr="CONNECTING", con="connecting",
+                            msgs=[{"type": "connection-hints", "hints": a} for a in twin_adds(rng)]))
         elif r < 0.62:
             out.append(dict(kind="transit", tor=e["tor"], listener=e["listener"], own=e["own"], receiver=e["receiver"],
                             adds=[gen_hint_list(rng, adv) for _ in range(rng.choice([1, 1, 2, 3]))]))
@@ -521,6 +582,44 @@ def expected_direct(hints, tor):
             if tor and host.startswith("10."):
                 continue
             out.append((host, port))
+    return out
+
+
+def _fully_valid(h, tor):
+    if not isinstance(h, dict) or h.get("type") not in (("direct-tcp-v1", "tor-tcp-v1") if tor else ("direct-tcp-v1",)):
+        return None
+    host, port = h.get("hostname"), h.get("port")
+    if type(host) is not str or type(port) is not int:
+        return None
+    if "priority" in h and type(h["priority"]) not in (int, float):
+        return None
+    if tor and host.startswith("10."):
+        return None
+    return (host, port)
+
+
+def expected_relay(hints, tor, all_lists):
+    """sub-hints of relay-v1 entries that are valid in every field: these must become relay attempts.  Without Tor
+    a tor-tcp-v1 sub-hint for the same host/port anywhere in the case may legitimately shadow the direct one
+    (the two namedtuples are == and live in one set), so those targets are not demanded."""
+    shadow = set()
+    if not tor:
+        for hl in all_lists:
+            if isinstance(hl, list):
+                for h in hl:
+                    if isinstance(h, dict) and h.get("type") == "relay-v1" and isinstance(h.get("hints"), list):
+                        for rh in h["hints"]:
+                            if isinstance(rh, dict) and rh.get("type") == "tor-tcp-v1" and type(rh.get("hostname")) is str \
+                                    and type(rh.get("port")) is int:
+                                shadow.add((rh["hostname"], rh["port"]))
+    out = []
+    if isinstance(hints, list):
+        for h in hints:
+            if isinstance(h, dict) and h.get("type") == "relay-v1" and isinstance(h.get("hints"), list):
+                for rh in h["hints"]:
+                    hp = _fully_valid(rh, tor)
+                    if hp is not None and hp not in shadow:
+                        out.append(hp)
     return out
 
 
@@ -678,7 +777,7 @@ def run_transit(case, force_tor=False):
         for hl in case["adds"]:
             v = wire(hl)
             sources |= valid_sources(v, tor)
-            must_dial += expected_direct(v, tor)
+            must_dial += expected_direct(v, tor) + expected_relay(v, tor, case["adds"])
             err = None
             try:
                 t.add_connection_hints(v)
@@ -734,12 +833,15 @@ def run_transit(case, force_tor=False):
         # ---- "never aborts the transfer; later valid hints are still dialled and can still win" on the real call chain
         if w.sync_failed:
             tags.append("attempt-failed-synchronously")
+        if err == "TransitError" and must_dial and not add_failed:
+            viol.append(("valid-hint-not-dialled", f"transit: 'No contenders' although the peer sent valid hints for {must_dial!r} "
+                                                   f"(hints {case['adds']!r})"))
         if err is None:
             attempted = {(h, p) for (_tm, _k, h, p, _ph) in w.dials}
             if not add_failed:
                 for hp in must_dial:
                     if hp not in attempted:
-                        viol.append(("valid-hint-not-dialled", f"transit: valid direct hint {hp!r} never became a connection "
+                        viol.append(("valid-hint-not-dialled", f"transit: valid hint {hp!r} never became a connection "
                                                                f"attempt (hints {case['adds']!r})"))
             pending = w.pending()
             if res and pending:
@@ -820,7 +922,8 @@ def run_dilation(case):
             if in_scope:
                 sources |= valid_sources(v["hints"], tor)
                 if case["mgr"] == "CONNECTING" and con == "connecting":
-                    must_dial += expected_direct(v["hints"], tor)
+                    must_dial += expected_direct(v["hints"], tor) + expected_relay(
+                        v["hints"], tor, [m.get("hints") for m in case["msgs"] if isinstance(m, dict)])
             before = len(sched)
             err = None
             try:
@@ -849,7 +952,7 @@ def run_dilation(case):
             attempted = {(h, p) for (_tm, _k, h, p, _ph) in w.dials}
             for hp in must_dial:
                 if hp not in attempted:
-                    viol.append(("valid-hint-not-dialled", f"dilation: valid direct hint {hp!r} never became a connection "
+                    viol.append(("valid-hint-not-dialled", f"dilation: valid hint {hp!r} never became a connection "
                                                            f"attempt (messages {case['msgs']!r})"))
             d0 = [(tm, h, p) for (tm, k, h, p, ph) in w.dials]
             if nan:
